@@ -4,32 +4,17 @@ use crate::support::*;
 use core::cmp::Ordering;
 pub mod ty {
     #![deny(warnings)]
-    #![allow(dead_code, unused_imports)]
+    #![allow(dead_code, unused_imports, non_snake_case)]
     use crate::support::{A, B, C, Good, Bad, m_eq, m_cmp, m_pcmp, m_hash, m_fmt, m_clone, m_clone_c, m_into, g_eq, g_cmp, g_pcmp, g_hash, g_fmt};
     use educe::Educe;
-
-    // names at the derive site that shadow everything the generated code might be tempted to write unqualified
-    #[allow(non_camel_case_types)] pub struct Option; pub struct Result; pub struct Ordering; pub struct Clone; pub struct Copy;
-    pub struct Default; pub struct Debug; pub struct PartialEq; pub struct Eq; pub struct PartialOrd; pub struct Ord; pub struct Hash;
-    pub struct Hasher; pub struct Into; pub struct From; pub struct Deref; pub struct DerefMut; pub struct Formatter; pub struct String;
-    pub struct Vec; pub struct Box; pub struct PhantomData; pub struct Sized; pub struct Send; pub struct Iterator; pub struct Self_;
-    #[allow(non_snake_case)] pub fn Some() {} #[allow(non_snake_case)] pub fn None() {} #[allow(non_snake_case)] pub fn Ok() {} #[allow(non_snake_case)] pub fn Err() {}
-    pub fn drop() {} pub mod core {} pub mod std {} pub mod alloc {} pub mod fmt {} pub mod cmp {} pub mod hash {} pub mod clone {} pub mod marker {}
-    #[allow(unused_macros)] macro_rules! stringify { ($($t:tt)*) => { "SHADOWED" } }
-    #[allow(unused_macros)] macro_rules! unreachable { ($($t:tt)*) => { () } }
-    #[allow(unused_macros)] macro_rules! panic { ($($t:tt)*) => { () } }
-    #[allow(unused_macros)] macro_rules! matches { ($($t:tt)*) => { true } }
-    #[allow(unused_macros)] macro_rules! write { ($($t:tt)*) => { () } }
-    #[allow(unused_macros)] macro_rules! format_args { ($($t:tt)*) => { () } }
-    #[allow(unused_macros)] macro_rules! assert { ($($t:tt)*) => { () } }
 #[derive(Educe)]
-#[educe(Ord, PartialEq, Eq)]
-pub struct T(#[educe(Ord(ignore = true))] pub A<0>);
+#[educe(PartialOrd, Eq, PartialEq)]
+pub struct T { #[educe(PartialOrd(ignore))] pub y: A<0>, #[educe(PartialOrd(rank = -4))] pub b: A<0>, #[educe(PartialOrd(rank("1"), method(m_pcmp)))] pub builder: A<2> }
 }
 pub use ty::T;
-impl PartialOrd for T { fn partial_cmp(&self, o: &Self) -> Option<Ordering> { Some(::core::cmp::Ord::cmp(self, o)) } }
-pub fn values() -> Vec<T> { vec![T(A(0)), T(A(1)), T(A(7))] }
-pub fn show(x: &T) -> String { #[allow(unused_variables)] match x { T(p0) => format!("T({})", sv(p0)) } }
-pub fn o_disc(x: &T) -> i128 { match x { T(_) => 0 } }
-pub fn o_cmp(a: &T, b: &T) -> Ordering { match (a, b) { (T(a0), T(b0)) => {  Ordering::Equal } } }
-pub fn run(out: &mut Out) { let vs = values(); for (i, a) in vs.iter().enumerate() { for (j, b) in vs.iter().enumerate() { let e = o_cmp(a, b); let g = ::core::cmp::Ord::cmp(a, b); out.check(g == e, "ord_15", "cmp", || format!("cmp({}, {}) = {:?} expected {:?}", show(a), show(b), g, e)); } } }
+
+pub fn values() -> Vec<T> { vec![T { y: A(0), b: A(0), builder: A(0) }, T { y: A(0), b: A(0), builder: A(1) }, T { y: A(0), b: A(0), builder: A(7) }, T { y: A(0), b: A(1), builder: A(0) }, T { y: A(0), b: A(1), builder: A(1) }, T { y: A(0), b: A(1), builder: A(7) }, T { y: A(0), b: A(7), builder: A(0) }, T { y: A(0), b: A(7), builder: A(1) }, T { y: A(0), b: A(7), builder: A(7) }, T { y: A(1), b: A(0), builder: A(0) }, T { y: A(1), b: A(0), builder: A(1) }, T { y: A(1), b: A(0), builder: A(7) }, T { y: A(1), b: A(1), builder: A(0) }, T { y: A(1), b: A(1), builder: A(1) }, T { y: A(1), b: A(1), builder: A(7) }, T { y: A(1), b: A(7), builder: A(0) }, T { y: A(1), b: A(7), builder: A(1) }, T { y: A(1), b: A(7), builder: A(7) }, T { y: A(7), b: A(0), builder: A(0) }, T { y: A(7), b: A(0), builder: A(1) }, T { y: A(7), b: A(0), builder: A(7) }, T { y: A(7), b: A(1), builder: A(0) }, T { y: A(7), b: A(1), builder: A(1) }, T { y: A(7), b: A(1), builder: A(7) }, T { y: A(7), b: A(7), builder: A(0) }, T { y: A(7), b: A(7), builder: A(1) }, T { y: A(7), b: A(7), builder: A(7) }] }
+pub fn show(x: &T) -> String { #[allow(unused_variables)] match x { T { y: p0, b: p1, builder: p2 } => format!("T({},{},{})", sv(p0), sv(p1), sv(p2)) } }
+pub fn o_disc(x: &T) -> i128 { match x { T { y: _, b: _, builder: _ } => 0 } }
+pub fn o_pcmp(a: &T, b: &T) -> Option<Ordering> { match (a, b) { (T { y: a0, b: a1, builder: a2 }, T { y: b0, b: b1, builder: b2 }) => { match ::core::cmp::PartialOrd::partial_cmp(a1, b1) { Some(Ordering::Equal) => (), x => return x } match m_pcmp(a2, b2) { Some(Ordering::Equal) => (), x => return x } Some(Ordering::Equal) } } }
+pub fn run(out: &mut Out) { let vs = values(); for (i, a) in vs.iter().enumerate() { for (j, b) in vs.iter().enumerate() { let e = o_pcmp(a, b); let g = ::core::cmp::PartialOrd::partial_cmp(a, b); out.check(g == e, "ord_15", "partial_cmp", || format!("partial_cmp({}, {}) = {:?} expected {:?}", show(a), show(b), g, e)); } } }
